@@ -178,6 +178,8 @@ class StmtMixin(CallMixin):
         if isinstance(target, ast.Name):
             if keep_fresh:
                 fresh = target.id in st.fresh_locals or target.id in self.param_containers
+            elif target.id in self.param_containers and target.id not in st.rebound and target.id in st.locals:
+                st.rebound[target.id] = st.locals[target.id]     # re-binding the name: the caller's object stops here
             self.set_local(st, target.id, val, fresh=fresh)
             yield None, st
             return
@@ -399,7 +401,14 @@ class StmtMixin(CallMixin):
                 yield from self.exec_block(node.orelse, s)
                 return
             for r, s0 in self.ev_value(elts[i], s):
-                for e, s1 in self.assign(node.target, self._lit(r), s0):
+                if O.is_strlit(r) and isinstance(node.target, ast.Name):
+                    # keep the literal itself: the unrolled loop variable is a compile-time constant (getattr(obj, param))
+                    s0.locals[node.target.id] = r
+                    self.note_local_write(s0, node.target.id)
+                    assigned = [(None, s0)]
+                else:
+                    assigned = list(self.assign(node.target, self._lit(r), s0))
+                for e, s1 in assigned:
                     for flow, s2 in self.exec_block(node.body, s1):
                         if flow[0] in ("next", "continue"):
                             yield from step(i + 1, s2)
@@ -680,6 +689,11 @@ class StmtMixin(CallMixin):
             try:
                 g = SpecEval(self, st, st.entry, {}, facts).clause(text)
             except SpecError as exc:
+                if "unknown name" in str(exc):
+                    # a variable the invariant speaks about does not exist (yet) in this state: the invariant does not hold here
+                    self.oblige(kind, st, z3.BoolVal(False), f"{desc}: {text} [{str(exc).split('SpecError:')[-1].strip()}: not defined at this point]",
+                                line, extra={"clause": text, "definite": True})
+                    continue
                 raise UnsupportedError(f"loop invariant: {exc}")
             st.assume(*facts)
             del facts[:]
